@@ -33,7 +33,7 @@ def setup(c):
         "Mem() of the mutable MemDB (arena capacities) is not modelled: the value observed on the implementation is an input of the model's needFlush",
         "keys are non-empty and below the memdb entry limits; key flags, key-only entries and locked-in-share-mode keys are not exercised",
         "a blocked `<-errCh` is modelled as: the running flush function returns now with a result given as input (`late`)",
-        "txn world: the store side of Flush/BufferBatchGet/Commit is played by the harness; region layout does not change during a case",
+        "txn world: the store side of Flush/BufferBatchGet/Commit is played by the harness; region layout does not change during a case; a failing flush answers every Flush request of that flush with the error and leaves nothing in the remote buffer",
         "throttling sleeps, TTL keep-alive and broadcast-txn-status fan-out are not covered",
     ]
 
